@@ -268,6 +268,11 @@ func init() {
 						}
 						ops = append(ops, opRec{kind: "listen"})
 					}
+				case c == 9 && r.running && g.Bool(): // a second Bind while serving: refused, and nothing changes
+					if err := svc.Bind(ctx, r.addr); err == nil {
+						return fmt.Errorf("second Bind during serving was not refused")
+					}
+					ops = append(ops, opRec{kind: "rebind"})
 				case c == 7: // connection opens
 					if r.running {
 						conn, err := varlink.NewConnection(ctx, r.addr)
